@@ -948,15 +948,26 @@ func (w *hpWorld) check(kind string, actor *hpCtr) {
 		return
 	}
 	for k, c := range expect {
+		if c != nil && c.lost[k] {
+			continue
+		}
 		if !bound[k] {
-			if c != nil && strings.Contains(kind, "restart") && c.isRandom(k) && heldByOther(k) {
-				// "port maybe taken by other process during restart, but we can do nothing about that" (server.go): a
-				// kernel-chosen port, released when the old daemon died, now belongs to somebody else. Environment.
-				run.Count("restart_random_port_taken_by_other_process", 1)
+			if c != nil && strings.Contains(kind, "restart") && c.hasRandom() && c.noneBound(bound) {
+				// "port maybe taken by other process during restart, but we can do nothing about that" (server.go):
+				// a kernel-chosen port was released when the old daemon died; anything on the node (an outgoing
+				// connection, another pod's random port) may have got it meanwhile, and OpenHostports re-opens a pod's
+				// ports all-or-nothing. Environment, not behaviour - but only for pods that have such a port, and
+				// only if the pod was left entirely unbound.
+				run.Count("restart_pod_not_rebound_kernel_chosen_port_lost", 1)
+				if heldByOther(k) {
+					run.Count("restart_lost_port_still_held_by_other_at_probe", 1)
+				}
 				if c.lost == nil {
 					c.lost = map[string]bool{}
 				}
-				c.lost[k] = true
+				for _, sk := range c.socketKeys() {
+					c.lost[sk] = true
+				}
 				continue
 			}
 			sig := "daemon-" + kind + "-hostport-not-bound"
@@ -1003,10 +1014,19 @@ func (w *hpWorld) check(kind string, actor *hpCtr) {
 	}
 }
 
-// isRandom: was this socket key's port chosen by the kernel (hostPort 0 in the pod)?
-func (c *hpCtr) isRandom(key string) bool {
+// hasRandom: does the pod have a port the kernel chose (hostPort 0 + annotation)?
+func (c *hpCtr) hasRandom() bool {
 	for _, pp := range c.pod.Ports {
-		if pp.HostPort > 0 && fmt.Sprintf("%s:%d", strings.ToLower(pp.Proto), pp.HostPort) == key {
+		if pp.HostPort == 0 && c.pod.PortMapAnn {
+			return true
+		}
+	}
+	return false
+}
+
+func (c *hpCtr) noneBound(bound map[string]bool) bool {
+	for _, sk := range c.socketKeys() {
+		if bound[sk] {
 			return false
 		}
 	}
